@@ -52,10 +52,6 @@ def register(M):
       "                if hasattr(node, 'decorator_list') and node.decorator_list:\n                    lineno = node.decorator_list[0].lineno - 1",
       "                if False:\n                    lineno = node.decorator_list[0].lineno - 1",
       'decorator adjustment of PS1 line numbers dropped')
-    M('C01_ps2', ['C04'], 'parser.py',
-      "        ps1_linenos = sorted(set(ps1_linenos).difference(ps2_linenos))",
-      "        ps1_linenos = sorted(set(ps1_linenos))",
-      'explicit ... lines may become PS1 lines')
     M('C01_dupstdout2', ['C01'], 'doctest_example.py',
       "                    self.logged_evals[partx] = got_eval\n                    self.logged_stdout[partx] = cap.text\n\n        if self.exc_info is None:",
       "                    self.logged_evals[partx] = got_eval\n                    self.logged_stdout[partx] = cap.cap_stdout.getvalue()\n\n        if self.exc_info is None:",
@@ -152,3 +148,35 @@ def register(M):
       "    flag = check_output(exc_got, exc_want, runstate)\n    # print('exc_want",
       "    flag = check_output(exc_got, exc_want, runstate) or exc_got.split(':')[1:] == exc_want.split(':')[1:]\n    # print('exc_want",
       'a wrong exception type passes when the messages agree')
+
+    # (not kept: 'explicit ... lines may become PS1 lines' and 'inline detection looks at the last line only' are
+    #  unobservable for well-formed docstrings, where a statement never starts on a '...' line)
+    # ---- C04 ---------------------------------------------------------------
+    M('C04_noclear', ['C04'], 'directive.py',
+      "        # Clear the previous inline state\n        self._inline_state.clear()\n", "        # Clear the previous inline state\n",
+      'inline overlay not cleared at the next update')
+    M('C04_leak_skip', ['C04'], 'directive.py',
+      "                elif action == 'assign':\n                    state[key] = value\n",
+      "                elif action == 'assign':\n                    state[key] = value\n                    if key == 'SKIP' and not value:\n                        self._global_state[key] = value\n",
+      'inline -SKIP also written to the persistent state')
+    M('C04_and', ['C04'], 'doctest_example.py',
+      "                if runstate['SKIP'] or len(runstate['REQUIRES']) > 0:", "                if runstate['SKIP'] and len(runstate['REQUIRES']) > 0:",
+      'skip decision uses and instead of or')
+    M('C04_nobreakafter', ['C04'], 'parser.py',
+      "                if directives[0].inline:\n                    if s2 is not None:\n                        break_linenos.append(s2)",
+      "                if directives[0].inline:\n                    if s2 is not None:\n                        pass",
+      'no part break after an inline directive')
+    M('C04_strings', ['C04'], 'directive.py',
+      "        for comment in static.extract_comments(text):",
+      "        for comment in [ln[ln.index('#'):] for ln in text.splitlines() if '#' in ln]:",
+      'directive extraction scans string literals')
+    M('C04_default', ['C04'], 'doctest_example.py',
+      "        runstate = self._runstate = directive.RuntimeState(default_state)", "        runstate = self._runstate = directive.RuntimeState()",
+      'default options ignored')
+    M('C04_F2', ['C04'], 'directive.py',
+      "                    if key not in state:\n                        # An inline directive starts from a copy of the\n                        # persistent set so it only impacts this part.\n                        state[key] = set(self._global_state[key])\n",
+      "                    if key not in state:\n                        state[key] = set()\n",
+      'inline REQUIRES overlay starts from an empty set (persistent requirements forgotten for that statement)')
+    M('C04_req_shared', ['C04', 'C11'], 'directive.py',
+      "                        state[key] = set(self._global_state[key])\n", "                        state[key] = self._global_state[key]\n",
+      'inline REQUIRES overlay shares the persistent set (inline effect leaks)')
